@@ -33,6 +33,11 @@ var internal405Handler HandlerFunc = func(c *Context) {
 	}
 }
 
+var (
+	default404Handlers = HandlersChain{internal404Handler}
+	default405Handlers = HandlersChain{internal405Handler}
+)
+
 /*************************************************************
  * starting HTTP serve
  *************************************************************/
@@ -173,20 +178,20 @@ func (r *Router) handleHTTPRequest(ctx *Context) {
 		handlers = append(handlers, r.handlers...)
 		handlers = append(handlers, route.handlers...)
 		handlers = append(handlers, route.handler)
-	} else if len(allowed) > 0 { // method not allowed
-		if len(r.noAllowed) == 0 {
-			r.noAllowed = HandlersChain{internal405Handler}
+	} else {
+		fallback := r.noRoute
+		if len(allowed) > 0 { // method not allowed
+			// add allowed methods to context
+			ctx.Set(CTXAllowedMethods, allowed)
+			if fallback = r.noAllowed; len(fallback) == 0 {
+				fallback = default405Handlers
+			}
+		} else if len(fallback) == 0 { // not found route
+			fallback = default404Handlers
 		}
 
-		// add allowed methods to context
-		ctx.Set(CTXAllowedMethods, allowed)
-		handlers = combineHandlers(r.handlers, r.noAllowed)
-	} else { // not found route
-		if len(r.noRoute) == 0 {
-			r.noRoute = HandlersChain{internal404Handler}
-		}
-
-		handlers = combineHandlers(r.handlers, r.noRoute)
+		// global middleware + fallback handlers, as a new slice
+		handlers = combineHandlers(r.handlers, fallback)
 	}
 
 	ctx.SetHandlers(handlers)
